@@ -17,13 +17,25 @@ sys.path.insert(0, os.path.dirname(os.path.abspath(__file__)))
 import dlib  # noqa: E402
 import c05_driver as L  # noqa: E402
 
-from traits.api import Any, CInt, Dict, HasTraits, Int, List, Set, Str, TraitError  # noqa: E402
+from traits.api import Any, CInt, Dict, HasTraits, Instance, Int, List, Set, Str, TraitError  # noqa: E402
 from traits.trait_list_object import TraitList, TraitListObject  # noqa: E402
 from traits.trait_set_object import TraitSet, TraitSetObject  # noqa: E402
 from traits.trait_dict_object import TraitDict, TraitDictObject  # noqa: E402
 
 val, atom, raw_init = L.val, L.atom, L.raw_init
-INNER = L.INNER
+Cell = L.Cell          # Instance("Cell") forward references are resolved in this module's namespace
+
+
+def inner_trait(vk):
+    return Instance("Cell") if vk == "VInst" else L.INNER[vk]
+
+
+class _Inner(dict):
+    def __missing__(self, vk):
+        return inner_trait(vk)
+
+
+INNER = _Inner()       # INNER[vk]: a fresh trait for VInst, the class for the others
 EXN = ["IndexError", "ValueError", "TraitError", "TypeError", "KeyError", "AttributeError"]
 _classes = {}
 
@@ -33,6 +45,10 @@ _FALSY = [None]        # set per case: the owner class defines __len__ -> 0 / __
 
 def cls_for(key, make):
     key = (key, _FALSY[0])
+    if "VInst" in repr(key):
+        # a forward reference Instance("Cell") is resolved (and the trait fixed up) at the first validation: every case
+        # gets its own class, so that its first assignment is that first validation
+        key = (key, len(_classes))
     if key not in _classes:
         members = {"x": make()}
         members.update(L.falsy_members(_FALSY[0]))
@@ -287,6 +303,12 @@ def run_dict(case):
                 td[val(op[1])] = val(op[2])
             elif k == "DelItem":
                 del td[val(op[1])]
+            elif k == "UpdateKw":
+                kw = dict((str(val(a)), val(b)) for a, b in op[2])     # keyword names: the str atoms
+                if op[1] is None:
+                    td.update(**kw)
+                else:
+                    td.update(dict(pairs(op[1])), **kw)
             elif k == "Update":
                 td.update(loose_dict(td, op) if op[1] else pairs(op[2]))
             elif k == "Ior":
@@ -322,6 +344,10 @@ def raw(r, inner_src=None):
     inner trait (deep copy of an existing inner list) holding these raw items"""
     if r is None:
         return NotAList()
+    if r == "cell":
+        return L.CELL                  # an instance of the innermost Instance("Cell") class where a list is expected
+    if r == "nonevalue":
+        return None
     if isinstance(r, dict):
         items = [val(a) for a in r["loose"]]
         if inner_src is None:
@@ -339,7 +365,8 @@ def run_nested(case):
     owner = cls_for(("nested", case["vk"], imn, imx, omn, omx),
                     lambda: List(List(INNER[case["vk"]], **list_kw(imn, imx)), **list_kw(omn, omx)))()
     init_raw = [[raw_init(case["vk"], a) for a in r] for r in case["init"]]
-    owner.x = [list(r) for r in init_raw]
+    if not case.get("no_init"):        # no_init: start from the declared default (the empty list), nothing validated yet
+        owner.x = [list(r) for r in init_raw]
     rec = Rec(owner)
     hist = []
     for op in case["ops"]:
@@ -541,7 +568,8 @@ def deep_dict_op(td, g):
 def run_deep(case):
     t = case["type"]
     owner = cls_for(("deep", repr(t)), lambda: deep_trait(t))()
-    owner.x = deep_init(t, case["init"])
+    if not case.get("no_init"):
+        owner.x = deep_init(t, case["init"])
     rec = Rec(owner)
     hist = []
     for op in case["ops"]:
